@@ -5,6 +5,7 @@ import logging
 import os
 import shutil
 import sys
+import time
 import traceback
 import warnings
 from pathlib import Path
@@ -27,6 +28,7 @@ def main(argv):
             shutil.rmtree(d, ignore_errors=True)
             d.mkdir(parents=True, exist_ok=True)
             os.environ["VERIF_CASE_SCRATCH"] = str(d)
+            t0 = time.time()
             try:
                 r = mod.run_case(case)
                 r = r.as_dict() if hasattr(r, "as_dict") else dict(r)
@@ -38,6 +40,7 @@ def main(argv):
             finally:
                 shutil.rmtree(d, ignore_errors=True)
             r["_i"] = case["_i"]
+            r["_wall"] = round(time.time() - t0, 2)
             fo.write(json.dumps(r, default=str) + "\n")
             fo.flush()
     shutil.rmtree(scratch, ignore_errors=True)
